@@ -34,17 +34,26 @@ THEOREMS = ["Cog.Builder." + t for t in [
     "C17_builder_rule_preserves", "C17_option_rule_preserves", "C17_seq", "C17_seq_counterexample",
     "C17_seq_counterexample_shared_pointer", "C17_seq_counterexample_unfold_after_index",
     "C17_frame_norules_partial", "C17_frame_norules_counterexample", "C17_frame_counterexample_shared_pointer",
-    "C17_option_frame", "C17_option_frame_counterexample", "C17_seq_counterexample_sf_opts_after_append", "C17_seq_counterexample_only_first_assignment", "C17_seq_counterexample_promote_first_argument_only", "C17_seq_counterexample_map_to_index_after_append", "C17_seq_counterexample_sf_args_prefix_of_first_assignment",
+    "C17_option_frame", "C17_option_frame_counterexample", "C17_seq_counterexample_sf_opts_after_append", "C17_seq_counterexample_only_first_assignment", "C17_seq_counterexample_promote_first_argument_only", "C17_seq_counterexample_map_to_index_after_append", "C17_seq_counterexample_sf_args_prefix_of_first_assignment", "C17_seq_counterexample_sf_opts_after_index",
     "C17_derived_WT", "C17_end_to_end", "C17_derived_option_fresh", "C17_array_to_append_preserves_fresh",
     "C17_map_to_index_preserves_fresh", "C17_unfold_boolean_preserves_fresh",
 ]]
 WITNESSES = ["dup-option-default", "dup-builder-default", "dismissed", "rename-args-constraint",
-             "promote-array-to-append", "merge-rename-arguments", "map-index-unfold", "sf-opts-after-append", "add-assignment-array-to-append", "map-index-promote", "append-then-map-to-index", "sf-args-twice"]
+             "promote-array-to-append", "merge-rename-arguments", "map-index-unfold", "sf-opts-after-append", "add-assignment-array-to-append", "map-index-promote", "append-then-map-to-index", "sf-args-twice", "map-index-sf-opts"]
 # fixed in /repo 71b1811 (Option.DeepCopy copies Default): replayed as must-pass, a relapse is a violation
 MUST_PASS = {"dup-option-default", "dup-builder-default"}
 # deterministic regression inputs without a Lean witness term: the real code must pass the oracle and
 # agree with the model (request through the driver)
 MUST_PASS_PINNED = ["merge-into-3-segments", "disjunction-index-out-of-range", "add-assignment-two-options-rename-one"]
+# Sent to the coordinator for /verif/known_findings.json; used only while that file does not list the id.
+PENDING = [{
+ "id": "C17/struct_fields_as_options/index-argument-dropped",
+ "property": "C17",
+ "what": "option.StructFieldsAsOptionsAction builds one option per field of the first argument around `oldAssignments[0].Path` as it is and declares only that field as argument: after map_to_index the first argument is the map KEY and the path contains an index item whose `PathIndex.Argument` (`key`) none of the new options declares (sibling of C17/unfold_boolean/index-argument-dropped; needs a map whose key type is a struct or a reference to one)",
+ "match": "FAIL wt-broken\\(option-struct_fields_as_options/option/index-argument-undeclared(/after-[a-z_+]+)?\\):",
+ "pinned": "0:0:pinned:map-index-sf-opts:",
+ "pinned_input": "schemas: package p { S = \u2026; K = struct { h?: bool }; MK = struct { items?: map[ref p.K]string } }; veneers (language all, package p): options: - map_to_index: {by_name: MK.items} - struct_fields_as_options: {by_name: MK.items}  ->  option h of builder MK has Args [h bool] and assigns path items[key].h with `key` undeclared"
+}]
 FIXED_IDS = {"C17/duplicate-option/default-dropped", "C17/duplicate-builder/option-defaults-dropped"}
 GO_ONLY_PINNED = ["compose-then-initialize"]
 FILES = HARNESS_BASE + ["vir_builders.go", "c16_*.go", "c17_*.go"]
@@ -67,6 +76,7 @@ def main():
     c = Check("C17")
     # repaired in /repo 71b1811: these entries explain nothing any more, whatever known_findings.json still lists
     c.known = [f for f in c.known if f["id"] not in FIXED_IDS]
+    c.known += [f for f in PENDING if f["id"] not in {k["id"] for k in c.known}]
     c.trusted = [
         "Lean 4.33 kernel; axioms per theorem are listed in obligation_list (subset of propext, Classical.choice, Quot.sound)",
         "hand-written model lean/Cog/Builder/Veneers.lean of internal/veneers/{builder,option,rewrite} + internal/yaml veneer glue + internal/veneers/types.go, tied by the c17-veneer correspondence stream: generated rule files are loaded THROUGH yaml.VeneersLoader and applied by rewrite.Rewriter.ApplyTo; the model gets the same files as decoded by yaml.v3 into yaml.Veneers (second decode, same settings)",
